@@ -1,8 +1,20 @@
 """Registry entry, manifest texts for C01."""
 
 ENTRY = {'parts': [{'scenario': 'scenarios.s_pool', 'chunk': 6}],
-         'quick': {'runs': 2500, 'budget': 60}, 'thorough': {'runs': 150000, 'budget': 1200}}
+         'quick': {'runs': 2500, 'budget': 55}, 'thorough': {'runs': 150000, 'budget': 1200}}
 
-TEXT = {'level': 'TODO', 'ref': 'DESIGN.md 5 (C01), 4 (S-POOL)', 'note': 'TODO'}
-
-ENABLED = False
+TEXT = {'level': 'Seeded search over schedules x fault sequences of the whole pool (real Pool, 4 handler threads, '
+          'real workers created by pickled spawn) on the simulated kernel: apply/map/imap jobs with unique '
+          'values, callbacks on every handle, discard, two submitting threads; faults: in-task death by any '
+          'signal / exit status at a chosen tick, unpicklable arguments (send failure), unpicklable results, '
+          'hard limits, recycling. Oracle: shadow record per job - resolved exactly once with its own value '
+          '/ the exception its program raised / a pool-made failure attributable to a really dead owner '
+          '(wiretap of the result pipe), callbacks <= 1, outcome never changes once observable (checked '
+          'after every scheduling step), no pool thread takes the host down, no cache leak, all jobs '
+          'resolved within 250 simulated seconds.',
+ 'note': 'Trusted: the simulated kernel (simos) models Linux semaphores, pipes, poll, process table, signals '
+         'and wait statuses faithfully (stub conformance: selftest/conformance.py); BaseProcess._bootstrap '
+         'is replaced by a replica of its exit-code mapping (checked by C19); start method is spawn-like '
+         '(pickled copy). Workers die uncatchably only inside task code or between jobs; pipes do not lose '
+         'bytes. Sampling, not proof.',
+ 'ref': 'DESIGN.md 5 (C01), 3, 4 (S-POOL)'}
